@@ -72,6 +72,12 @@ STATEMENTS = [
     "class K:\n    password = 'x'\n    def m(self, token='t'): return mark_safe(self.password)", "global_ = '/tmp/' 'concat'", "del d['password']", "x = y if 'password' else 'token'",
     "mark_safe(x)", "x = 'a'\nmark_safe(x)", "x = y\nx = 'b'\nmark_safe(x)", "x = (\n    x)\nmark_safe(x)", "def f(x):\n    x = 'lit'\n    return mark_safe(x)",
     "for x in ['a']:\n    mark_safe(x)", "x, y = 'a', b\nmark_safe(y)", "mark_safe('%s' % x)", "mark_safe('{}'.format(x))", "mark_safe(x + 'a')", "mark_safe(f'{x}')",
+    # unpacking assignments whose target and value lists differ in length / nest / star (seeded change C06-m3: B105 indexed target.elts by the string's position)
+    "method, *rest = 'GET', '/index.html', 'HTTP/1.1'", "first, *middle, last = 'a', 'b', 'c', 'd'", "[scheme, *location] = 'http', 'host', 'path'", "*rest, password = 'x', 'y', 'pw'",
+    "password, *rest = 'pw', 'x', 'y'", "a, b = 'x', 'y', 'z'", "(a, password), c = ('p', 'q'), 'r'", "user, password = 'admin', 'hunter2'", "user, password = creds = 'admin', 'hunter2'",
+    "o.password, d['token'] = 'a', 'b'", "for password, *r in [('a', 'b', 'c')]: pass", "password, = 'x',", "a = b, password = 'x', 'y'",
+    "tar.extractall(**{'path': dest, 'members': wanted})", "tar.extractall('.', **{'members': safe(tar)})", "tarfile.open(n).extractall(**{'filter': 'data'})",
+    "subprocess.Popen(**{'args': cmd, 'shell': True})", "requests.get(url, **{'verify': False, 'timeout': None})", "yaml.load(s, **{'Loader': yaml.SafeLoader})",
     "while True:\n    x = 'a'\n    mark_safe(x)\n    x = b", "with a as x:\n    mark_safe(x)", "x: str\nmark_safe(x)", "x = ''.join(l)\nmark_safe(x)", "mark_safe()", "mark_safe(*a)", "mark_safe(s=x)",
 ]
 
@@ -100,6 +106,11 @@ def run(res, ctx):
             kws.append(f"{k}={v}")
         if rng.random() < 0.25:
             kws.append(rng.choice(KW_SPECIAL))
+        elif rng.random() < 0.3:
+            # a literal mapping unpacked in the call, naming the very keywords the checks look for (seeded change C06-m4: call_keywords learnt to expand
+            # `**{...}` while B202 still re-scanned node.keywords for `members`)
+            ks = rng.sample(KEYWORDS, rng.choice([1, 2]))
+            kws.append("**{" + ", ".join("'%s': %s" % (k, rng.choice([x for x in POS_SHAPES if not x.startswith("*") and x != "x := 3"])) for k in ks) + "}")
         args = [("(x := 3)" if a == "x := 3" else a) for a in pos] + kws
         return f"{callee}({', '.join(args)})"
 
@@ -110,7 +121,7 @@ def run(res, ctx):
             src = (pre + "\n" if pre else "") + wrap.format(c=body) + "\n"
             progs.append((src, callee))
     for st in STATEMENTS:
-        progs.append(("import ssl\nfrom django.utils.safestring import mark_safe\n" + st + "\n", "stmt"))
+        progs.append(("import ssl, tarfile, subprocess, requests, yaml\nfrom django.utils.safestring import mark_safe\n" + st + "\n", "stmt"))
     # grammar-directed programs: every statement / target / expression kind around the names and calls the checks key on
     import pygen
     gp = pygen.programs(rng, 900 if thorough else 220)
@@ -157,6 +168,9 @@ def run(res, ctx):
                 if model is not None:
                     if "error" in model[i]:
                         res.break_("driver-error", model[i]["error"])
+                    elif model[i].get("shape_ok") is False or model[i].get("config_ok") is False:
+                        # Props.C06.scan_no_crash assumes TreeShapeOK (facts CPython gives every parsed module) and configOK (the generated defaults)
+                        res.break_("hypothesis-of-scan_no_crash-false-on-a-real-input", {"program": src, "shape_ok": model[i].get("shape_ok"), "config_ok": model[i].get("config_ok")})
                     elif tag in ("grammar", "xss-flow"):
                         # full correspondence (findings, locations, crashes) of the whole model on grammar-directed programs
                         diff = C.compare_scan({"findings": r["findings"], "errors": C.crashed_tests(r["errors"])}, model[i], C.blacklist_ids())
@@ -169,6 +183,27 @@ def run(res, ctx):
                         diff = C.compare_scan(r, model[i], C.blacklist_ids())
                         if diff and ("real_crashes" in diff):
                             res.break_("correspondence:crashes", {"program": src, "diff": diff})
+        # ---- depth: programs whose size drives the recursion of a check beyond CPython's recursion limit (the model has no such limit:
+        #      Props.C06.b703_total shows its budget always suffices).  A RecursionError inside a check is the listed known finding
+        #      C06-recursion-limit; any other internal error on these programs is a violation.
+        deep = [("b608-concat-%d" % n, "q = 'SELECT * FROM t WHERE a = ' + " + " + ".join("v%d" % i for i in range(n)) + "\n", n) for n in (60, 600)] + \
+               [("b703-alias-chain-%d" % n, "from django.utils.safestring import mark_safe\nx0 = ''\n" + "".join("x%d = x%d\n" % (i + 1, i) for i in range(n)) + "mark_safe(x%d)\n" % n, n)
+                for n in (60, 1200)]
+        for label, src, n in deep:
+            try:
+                r = C.real_scan(scratch.fresh("deep.py", src.encode()))
+            except BaseException as e:
+                res.violation("an exception escaped the scan of a valid Python file", {"exception": type(e).__name__, "program_head": src[:200], "size": n})
+                continue
+            res.case(("deep", label), True)
+            res.count("deep:" + label.rsplit("-", 1)[0])
+            rec = [e for e in r["errors"] if "maximum recursion depth exceeded" in e]
+            other = [e for e in r["errors"] if e not in rec]
+            if other or r["skipped"] or (rec and n < 400):
+                res.violation("a check raised on a syntactically valid file (internal error logged / file skipped)",
+                              {"program_head": src[:300], "size": n, "crashed_checks": r["errors"], "skipped": r["skipped"]})
+            elif rec:
+                res.known_finding("C06-recursion-limit")
         # ---- corpus: every parsable .py file of /repo through the full model (all plugins) and real bandit
         files = sorted(glob.glob(os.path.join(C.REPO, "examples", "*.py")))
         if thorough:
@@ -189,6 +224,8 @@ def run(res, ctx):
                 m = d.ask(req)
                 if "error" in m:
                     res.break_("driver-error", m["error"])
+                elif m.get("shape_ok") is False or m.get("config_ok") is False:
+                    res.break_("hypothesis-of-scan_no_crash-false-on-a-real-input", {"file": f, "shape_ok": m.get("shape_ok"), "config_ok": m.get("config_ok")})
                 else:
                     rr = {"findings": r["findings"], "errors": C.crashed_tests(r["errors"])}
                     diff = C.compare_scan(rr, m, C.blacklist_ids())
